@@ -92,7 +92,12 @@ fn gen_cfg(rng: &mut Rng, expose: bool) -> Cfg {
         let long: String = (0..4050).map(|i| if i % 27 == 0 { '"' } else { 'a' }).collect();
         rows.push((long, feats(rng)));
     }
-    let lex: String = rows.iter().map(|(s, f)| format!("{},0,0,0,{}\n", quote(s), f)).collect();
+    let mut lex: String = rows.iter().map(|(s, f)| format!("{},0,0,0,{}\n", quote(s), f)).collect();
+    // 1 configuration in 3: a word class that occurs only at the beginning of sentences (its right-context features
+    // earn weights only against BOS), and a 0,0,0 user word of the same class
+    let initial_only = !expose && rng.chance(1, 3);
+    let initial_feat = format!("接続詞,{},*,{}", *rng.pick(&["一般", "固有"][..]), *rng.pick(&["ア", "イ"][..]));
+    if initial_only { lex.push_str(&format!("ああ,0,0,0,{}\n", initial_feat)); }
     let chardef = "DEFAULT 0 1 0\nALPHA 1 1 0\nKANJI 0 0 2\n0x0061..0x007A ALPHA\n0x4E00..0x9FFF KANJI\n".to_string();
     let mut unk = String::new();
     for c in ["DEFAULT", "ALPHA", "KANJI"] { for _ in 0..1 + rng.below(2) { unk.push_str(&format!("{},0,0,0,{}\n", c, feats(rng))); } }
@@ -153,7 +158,8 @@ fn gen_cfg(rng: &mut Rng, expose: bool) -> Cfg {
     for _ in 0..rng.below(4) { rewrite_def.push_str(&rule(rng)); }
     // corpus of lexicon words
     let mut corpus = String::new();
-    for _ in 0..3 + rng.below(4) {
+    for si in 0..3 + rng.below(4) {
+        if initial_only && si < 2 { corpus.push_str(&format!("ああ\t{}\n", initial_feat)); }
         for _ in 0..2 + rng.below(4) { let (s, f) = rng.pick(&rows); corpus.push_str(&format!("{}\t{}\n", s, f)); }
         corpus.push_str("EOS\n");
     }
@@ -177,6 +183,7 @@ fn gen_cfg(rng: &mut Rng, expose: bool) -> Cfg {
     // ... and one with the SURFACE and the features of a seed word (must get that word's cost as well)
     { let (sf, f) = rng.pick(&rows); if sf.chars().count() < 100 { user.push_str(&format!("{},0,0,0,{}\n", quote(sf), f)); } }
     if empty_feature { user.push_str("ue,0,0,0,\nuf,1,1,7,\n"); }
+    if initial_only { user.push_str(&format!("uh,0,0,0,{}\n", initial_feat)); }
     // a 0,0,0 user word with the features of a corpus token that no lexicon word has: its label carries the weights
     // that token earned in training and can be the heaviest of the whole model
     for (j, vf) in virtual_feats.iter().enumerate() { user.push_str(&format!("uv{},0,0,0,{}\n", j, vf)); }
@@ -327,6 +334,7 @@ pub fn run(prop: &str, seed: u64, n: usize, outdir: &str, _corpus: Option<&str>)
         }
         *dist.entry(format!("templates_{}", if c.k >= 8 { "ge8" } else { "lt8" })).or_default() += 1;
         if c.virtual_tokens { *dist.entry("corpus_with_uncovered_tokens".into()).or_default() += 1; }
+        if c.lex.contains("ああ,0,0,0,接続詞") { *dist.entry("sentence_initial_only_class".into()).or_default() += 1; }
         let maxabs_of = |m: &Model| -> f64 { m.verif_merged().map(|(sets, matrix)| sets.iter().map(|s| s.0.abs()).chain(matrix.iter().map(|x| x.2.abs())).fold(0f64, f64::max)).unwrap_or(0.0) };
         // ---- C15 part 1: generate from the in-memory model (before any user lexicon)
         // (a panic of the first generation is recorded as an observation: known-finding class K7 when the
